@@ -236,3 +236,68 @@ func TestShrinkingExplicitEnd(t *testing.T) {
 	sysrun.Run(t, "C05", sub, sysrun.Family{Name: "shrink", Quick: 40, Thorough: 2000, Gen: scen.ShrinkingExplicitEnd,
 		NonTrivial: func(c map[string]int64) bool { return c["firing_listed"] > 0 }}, ck)
 }
+
+// reloadBetweenResolveAndFlush: an alert is notified firing, resolves inside a long group interval,
+// and the configuration is reloaded before the next flush: the new dispatcher finds the alert already
+// resolved and no group for it, yet the receiver is still owed the resolution.
+func reloadBetweenResolveAndFlush(r *rand.Rand) *scen.Scenario {
+	gw := gen.Pick(r, []time.Duration{time.Second, 10 * time.Second})
+	gi := gen.Pick(r, []time.Duration{2 * time.Minute, 5 * time.Minute})
+	ri := time.Hour
+	gb := []string{"alertname"}
+	cfg := &scen.Config{ResolveTimeout: 5 * time.Minute,
+		Route:     &model.RouteSpec{Receiver: "r0", GroupBy: &gb, GroupWait: &gw, GroupInterval: &gi, RepeatInterval: &ri},
+		Receivers: []scen.Receiver{{Name: "r0", Integs: []scen.Integ{{SendResolved: true}}}}}
+	s := &scen.Scenario{Config: cfg, Duration: 4 * gi}
+	l := model.Labels{"alertname": "A", "sev": "crit"}
+	t0 := time.Duration(1+r.Intn(30))*time.Second + time.Duration(1+r.Intn(998))*time.Millisecond
+	far := 3 * time.Hour
+	zero := time.Duration(0)
+	s.Ops = append(s.Ops, scen.Op{At: t0, Kind: "alerts", Alerts: []scen.PostSpec{{Labels: l, EndOff: &far}}})
+	k := r.Intn(2)
+	resolveAt := t0 + gw + time.Duration(k)*gi + gi/4
+	s.Ops = append(s.Ops, scen.Op{At: resolveAt, Kind: "alerts", Alerts: []scen.PostSpec{{Labels: l, EndOff: &zero}}})
+	s.Ops = append(s.Ops, scen.Op{At: resolveAt + gi/4 + time.Duration(r.Intn(1000))*time.Millisecond, Kind: "reload", Config: cfg})
+	return s
+}
+
+func TestReloadBetweenResolveAndFlush(t *testing.T) {
+	sub := vf.Cur().Sub("reload-between-resolve-and-flush", fmt.Sprintf(rule, "targeted: an alert notified as firing resolves inside a 2-5 min group interval and the (unchanged) configuration is reloaded before the next flush; the receiver must still be told that it resolved"), 10)
+	sysrun.Run(t, "C05", sub, sysrun.Family{Name: "rbrf", Quick: 40, Thorough: 2000, Gen: reloadBetweenResolveAndFlush, NonTrivial: nt}, checkers)
+}
+
+// lateFlushSendResolvedOff: a receiver that does not want resolved alerts; deliveries take longer than
+// group_interval, so every flush runs seconds after the tick it was scheduled for; alerts with explicit
+// ends spread over the whole run end between a tick and the moment that flush really runs, while new
+// alerts keep giving the group something to report.
+func lateFlushSendResolvedOff(r *rand.Rand) *scen.Scenario {
+	gw, gi, ri := time.Second, gen.Pick(r, []time.Duration{2 * time.Second, 4 * time.Second}), time.Hour
+	gb := []string{"alertname"}
+	cfg := &scen.Config{ResolveTimeout: 5 * time.Minute,
+		Route:     &model.RouteSpec{Receiver: "r0", GroupBy: &gb, GroupWait: &gw, GroupInterval: &gi, RepeatInterval: &ri},
+		Receivers: []scen.Receiver{{Name: "r0", Integs: []scen.Integ{{SendResolved: false}}}}}
+	s := &scen.Scenario{Config: cfg, Duration: 3 * time.Minute}
+	delay := gi + gen.Pick(r, []time.Duration{time.Second, 2500 * time.Millisecond})
+	s.Faults = append(s.Faults, scen.Fault{Receiver: "r0", Idx: 0, From: 0, To: s.Duration, Kind: "slow", Delay: delay})
+	t0 := 2*time.Second + time.Duration(1+r.Intn(900))*time.Millisecond
+	far := 30 * time.Minute
+	// ends spread out: one alert ends every 700 ms from t0+10s on
+	var first []scen.PostSpec
+	for k := 0; k < 60; k++ {
+		e := 10*time.Second + time.Duration(k)*700*time.Millisecond + time.Duration(r.Intn(300))*time.Millisecond
+		first = append(first, scen.PostSpec{Labels: model.Labels{"alertname": "A", "instance": fmt.Sprintf("x%d", k)}, EndOff: &e})
+	}
+	first = append(first, scen.PostSpec{Labels: model.Labels{"alertname": "A", "instance": "w"}, EndOff: &far})
+	s.Ops = append(s.Ops, scen.Op{At: t0, Kind: "alerts", Alerts: first})
+	// new firing members every 3 s: a reason to notify at every flush
+	for k := 0; time.Duration(k)*3*time.Second < time.Minute; k++ {
+		s.Ops = append(s.Ops, scen.Op{At: t0 + 5*time.Second + time.Duration(k)*3*time.Second, Kind: "alerts", Alerts: []scen.PostSpec{{Labels: model.Labels{"alertname": "A", "instance": fmt.Sprintf("y%d", k)}, EndOff: &far}}})
+	}
+	return s
+}
+
+func TestLateFlushSendResolvedOff(t *testing.T) {
+	sub := vf.Cur().Sub("late-flush-send-resolved-off", fmt.Sprintf(rule, "targeted: send_resolved off; deliveries take longer than group_interval (2-4 s), so every flush runs seconds after its scheduled tick; 60 alerts with explicit ends 700 ms apart end between ticks and late flushes while new alerts join every 3 s; no notification may list a resolved alert"), 8)
+	sysrun.Run(t, "C05", sub, sysrun.Family{Name: "lfsr", Quick: 30, Thorough: 1500, Gen: lateFlushSendResolvedOff,
+		NonTrivial: func(c map[string]int64) bool { return c["firing_listed"] > 0 }}, checkers)
+}
